@@ -13,7 +13,7 @@ from vpkit import common, pairs, zoo
 
 ID = "C06"
 N = {"quick": 130, "thorough": 5000}
-BUDGET = {"quick": 240.0, "thorough": 1500.0}
+BUDGET = {"quick": 240.0, "thorough": 700.0}
 RULE = ("case = (zoo input, method, option set, one power-of-two and one general scale factor c); "
         "distinct by (topology hash, method, options, factors); non-trivial = base and both "
         "scaled runs returned and node/mutation times and posterior moments were compared")
